@@ -49,6 +49,12 @@ CHECKS = {
  "C17": ("fault_enumeration", "§2 C17", FAULT,
    "For every (base world, operation that calls user code, callback kind, call index k below the count observed in the unfaulted run): a panic is armed at exactly that call, the operation is run, then each of 4 aftermaths (drop; read everything; clear; remove every identifier) is judged by the drop ledger and the checking allocator; process aborts from std's unsafe-precondition checks are attributed to the armed case by a supervising parent. 41 operations incl. remove, clear, Entry::add/remove, clone, clone_from (6 sources), drop, (de)serialization in 3 encodings, ==, Debug, run_system, run_par_system, run_schedule.",
    "second panics never armed; leaks allowed; three (operation, callback) pairs are open known findings (known_findings.json)"),
+ "C14": ("exploration", "§2 C14", "E6 generated program families type- and borrow-checked by rustc against the current brood rlib (tools/progs.py)",
+   "302 generated programs in 7 families (every view-kind pair on one component in Views!/entry queries/par queries; iterator vs entry views; entry vs entry views; resource view pairs in 3 APIs; repeated single-entity access; components/resources outside the registry in 15 APIs; 30 thread-crossing programs with Rc/Cell payloads incl. schedules), each must-reject program paired with a conflict-free twin that must compile; the verdict of a small reference model of Rust's aliasing and Send/Sync rules is compared with rustc's verdict.",
+   "bounded-exhaustive enumeration of a program space with the compiler as transition function; says nothing outside the families; 6 programs of the entries-requery family are open known findings"),
+ "C18": ("exploration", "§2 C18", "generated programs (mc/dup) + E6",
+   "All 120 duplicate-position registries of length 2..9 plus the 8 duplicate-free ones through 6 constructors (new, with_resources, default, Deserialize in 3 encodings): must panic / must return; all 120 column-length tuples in {0,1,2}^k (k=1..4): Batch::new returns iff equal, extend then stores rows and the structure audit holds; Batch::new_unchecked requires unsafe. The space stated in the property is finite and enumerated completely.",
+   "components are distinct nominal types; TypeId-based duplicate detection trusted to be what it is"),
 }
 NOT_YET = {
  "C03": "check under construction (E2 view/filter grid)",
@@ -98,9 +104,11 @@ def main():
     }
     json.dump(m, open(os.path.join(ROOT, "MANIFEST.json"), "w"), indent=1)
 
-TECH0 = {"C11": "exhaustive enumeration of input edits (all single edits at all positions, 3 encodings) executed on the implementation, Err/valid-world oracle", "C17": "exhaustive enumeration of fault positions (every callback index of every operation on every base world) executed on the implementation, ledger/allocator oracle"}
+TECH0 = {"C14": "bounded-exhaustive enumeration of a generated program space (compiler as transition function, reference verdict model as oracle)", "C18": "complete enumeration of the finite input space stated in the property (all duplicate-position registries, all column-length tuples) executed on the implementation", "C11": "exhaustive enumeration of input edits (all single edits at all positions, 3 encodings) executed on the implementation, Err/valid-world oracle", "C17": "exhaustive enumeration of fault positions (every callback index of every operation on every base world) executed on the implementation, ledger/allocator oracle"}
 TECH = {p: "stateless model checking of the implementation: exhaustive enumeration of task orders per fork/join nest under a controlled scheduler, sequential reference / footprint oracle" for p in ("C07", "C08", "C12")}
 ENGINES = [
+ {"name": "progs", "path": "/verif/tools/progs.py", "serves_properties": ["C14", "C18"], "kind_free_text": "program-family enumeration: rustc --emit=metadata per generated program against the current rlib, reference verdict model"},
+ {"name": "dup", "path": "/verif/mc/dup", "serves_properties": ["C18"], "kind_free_text": "generated duplicate-registry and ragged-batch enumeration"},
  {"name": "fault", "path": "/verif/mc/fault", "serves_properties": ["C11", "C17"],
   "kind_free_text": "exhaustive fault-position enumeration: supervisor + worker processes, each case executed on the real World inside the checking allocator with the drop ledger"},
  {"name": "sched", "path": "/verif/mc/sched", "serves_properties": ["C07", "C08", "C12"],
